@@ -268,6 +268,26 @@ def renderOutcome : Outcome → String
           | none => ["0", "0"]
           | some oa => ["1", toString oa.length] ++ oa.map renderRR)))
 
+/-- a short class of the model outcome (first field of the model output; feeds the
+histogram in the evidence) -/
+def classOf (c : Conf) : Outcome → String
+  | .err => "err"
+  | .done _ log ql =>
+    let mode := match c.mode with
+      | .default => "default" | .nullIP => "null_ip" | .customIP => "custom_ip"
+      | .nxdomain => "nxdomain" | .refused => "refused"
+    match ql with
+    | none => "reserved"
+    | some l =>
+      if l.isFiltered then
+        if log.isEmpty then
+          (if l.reason == .blockedService then "blocked-service-" else "blocked-rule-") ++ mode
+        else "replaced-" ++ mode
+      else if l.reason == .allowList then "forward-allow"
+      else if !protectionOn c then "forward-protection-off"
+      else if !filteringOn c then "forward-filtering-off"
+      else "forward-nomatch"
+
 /-! ## engines -/
 
 /-- Layer A stage: the engines' verdicts as shipped by the harness (computed
